@@ -20,6 +20,16 @@ import (
 // HOp is one GET operation /p<i> with its own produces list (empty: inherits the global list).
 type HOp struct {
 	Produces []string `json:"produces,omitempty"`
+	// Code is the operation's declared success status (0: 200). A 204 operation negotiates like any other: the 406
+	// clause speaks of the types the operation declares, not of whether a body follows.
+	Code int `json:"code,omitempty"`
+}
+
+func (o HOp) code() int {
+	if o.Code == 0 {
+		return http.StatusOK
+	}
+	return o.Code
 }
 
 // HReq is one request: the operation it addresses and its Accept header (structure).
@@ -134,7 +144,7 @@ func CheckHandler(c HCase) *kit.Violation {
 	}
 	paths := jm{}
 	for i, op := range c.Ops {
-		o := jm{"operationId": fmt.Sprintf("op%d", i), "responses": jm{"200": jm{"description": "ok"}}}
+		o := jm{"operationId": fmt.Sprintf("op%d", i), "responses": jm{fmt.Sprint(op.code()): jm{"description": "ok"}}}
 		if len(op.Produces) > 0 {
 			o["produces"] = op.Produces
 		}
@@ -208,8 +218,8 @@ func CheckHandler(c HCase) *kit.Violation {
 		if runs != 1 {
 			return kit.Failf("HANDLER-NOT-RUN %s; admissible: %v", desc, keysOf(adm, offers))
 		}
-		if rec.Code != http.StatusOK {
-			return kit.Failf("STATUS %s; want 200", desc)
+		if rec.Code != c.Ops[rq.Op].code() {
+			return kit.Failf("STATUS %s; want %d", desc, c.Ops[rq.Op].code())
 		}
 		if !adm[ct] {
 			return kit.Failf("CONTENT-TYPE %s; admissible: %v", desc, keysOf(adm, offers))
@@ -254,6 +264,7 @@ func GenHandler(t *rapid.T) HCase {
 		if rapid.IntRange(0, 4).Draw(t, "inherit") != 0 {
 			op.Produces = genProduces(t, 1, 4)
 		}
+		op.Code = rapid.SampledFrom([]int{0, 0, 0, 201, 204, 204}).Draw(t, "success-code")
 		c.Ops = append(c.Ops, op)
 	}
 	nreq := rapid.IntRange(6, 12).Draw(t, "nreq")
@@ -331,6 +342,9 @@ func ClassifyHandler(c HCase) (bool, []string) {
 		switch {
 		case len(adm) == 0:
 			l["406 expected"] = true
+			if c.Ops[rq.Op].code() == http.StatusNoContent {
+				l["406 expected of an operation that answers 204"] = true
+			}
 			nt = true
 			if zeroQ {
 				l["406 because of q=0"] = true
